@@ -1,7 +1,7 @@
 (* C17 correspondence: operation sequences run on the real filesystems by
    harness/cmd/c17, replayed through the model (mismatch:...) and judged step
    by step against the reference (viol:<corner>). *)
-From Apko Require Export Base.Prelude Model.MemFS Spec.FsSpec.
+From Apko Require Export Base.Prelude Model.MemFS Spec.FsSpec Model.DirFS.
 Open Scope string_scope. Open Scope list_scope.
 
 Definition mtime_match (a b : option Z) : bool :=
@@ -112,6 +112,21 @@ Fixpoint check_dir_steps (s : st) (ops : list op) (obs : list out) : list string
   | _, _ => ["mismatch:observation-count"]
   end.
 
+(* the directory-backed filesystem against its own model (Model/DirFS.v: overlay =
+   the memFS model, host = the reference): every step of the whole sequence is
+   compared, inside the envelope or not — the model knows how overlay and host
+   drift apart (C17-F19 included: the host's link(2) is modelled as it is). *)
+Fixpoint check_dirm_steps (d : dst) (ops : list op) (obs : list out) : list string :=
+  match ops, obs with
+  | [], [] => []
+  | o :: ops', r :: obs' =>
+      let '(d1, mr) := dirfs_step d o in
+      if on_dir_handle (d_host d) o then check_dirm_steps d1 ops' obs'
+      else if out_match mr r then check_dirm_steps d1 ops' obs'
+      else [String.append "mismatch:dirfs-" (op_name o)]
+  | _, _ => ["mismatch:observation-count"]
+  end.
+
 Fixpoint dedup (l : list string) : list string :=
   match l with
   | [] => []
@@ -125,7 +140,7 @@ Definition check_case (c : fs_case) : list string :=
   dedup (match c_target c with
          | TMem => check_steps MemFS init_st (c_ops c) (c_obs c)
          | TTar => check_steps TarFS init_st (c_ops c) (c_obs c)
-         | TDir => check_dir_steps init_st (c_ops c) (c_obs c)
+         | TDir => check_dir_steps init_st (c_ops c) (c_obs c) ++ check_dirm_steps dinit (c_ops c) (c_obs c)
          end).
 
 (* how many steps of a case lie inside the envelope (evidence only) *)
@@ -149,5 +164,13 @@ Fixpoint first_div_model (b : backend) (s : st) (ops : list op) (obs : list out)
   | o :: ops', r :: obs' =>
       let '(s1, mr) := model_step b s o in
       if out_match mr r then first_div_model b s1 ops' obs' (S i) else Some (i, mr)
+  | _, _ => None
+  end.
+
+Fixpoint first_div_dirm (d : dst) (ops : list op) (obs : list out) (i : nat) : option (nat * out) :=
+  match ops, obs with
+  | o :: ops', r :: obs' =>
+      let '(d1, mr) := dirfs_step d o in
+      if out_match mr r then first_div_dirm d1 ops' obs' (S i) else Some (i, mr)
   | _, _ => None
   end.
